@@ -161,6 +161,33 @@ func (w *worker) kill() {
 // parent. A worker that does not answer within the watchdog is killed and the
 // case reported with Hang=true; a worker that dies reports Crash.
 func runPool(r *vcore.Run, tasks []task, n int, defWatchdog time.Duration) {
+	// A case that exceeds the default watchdog is not reported at once: the
+	// margin over the normal duration of the slowest cases (in-circuit BW6-761
+	// pairing: 2 minutes on a busy machine) is small and the expiry depends on
+	// the load of the machine (seen once: load average 160, 16 cores).  Such
+	// cases run a second time when the pool has drained, with four times the
+	// watchdog; only a second expiry is reported as non-termination.  Cases with
+	// their own (short) watchdog are the ones expected to hang and are final.
+	var retryMu sync.Mutex
+	var retry []task
+	runPoolOnce(r, tasks, n, defWatchdog, func(t task) bool {
+		if t.watchdog != 0 {
+			return false
+		}
+		retryMu.Lock()
+		defer retryMu.Unlock()
+		t.watchdog = 4 * defWatchdog
+		retry = append(retry, t)
+		cnt(r, "pool.watchdog-expired-once(case-repeated-with-4x-watchdog)")
+		return true
+	})
+	if len(retry) > 0 {
+		runPoolOnce(r, retry, n, defWatchdog, func(task) bool { return false })
+	}
+}
+
+// runPoolOnce: see runPool; deferHang may take over a case whose watchdog expired.
+func runPoolOnce(r *vcore.Run, tasks []task, n int, defWatchdog time.Duration, deferHang func(task) bool) {
 	// longest first
 	for i := 1; i < len(tasks); i++ {
 		for j := i; j > 0 && tasks[j].cost > tasks[j-1].cost; j-- {
@@ -228,6 +255,9 @@ func runPool(r *vcore.Run, tasks []task, n int, defWatchdog time.Duration) {
 					w.kill()
 					w = nil
 					cnt(r, "pool.watchdog-kills")
+					if deferHang(t) {
+						continue
+					}
 					t.done(outcome{Hang: true, Err: fmt.Sprintf("no answer within %s", wd)})
 				}
 			}
